@@ -221,13 +221,18 @@ Theorem C14_from_thread_landed_after_loop_end_refuted :
 Proof. exact rs_from_thread_landed_after_loop_end_refuted. Qed.
 Print Assumptions C14_from_thread_landed_after_loop_end_refuted.
 
-(* ... and under the boolean restriction no_land_after_loop_end (no from_thread call-back is issued after LoopEnd) every
-   call-back of the run is issued with `ended = false`, i.e. falls under C14_from_thread_run_spec.  The ops after LoopEnd
-   other than ThreadRunAsync are not restricted by the model (an over-approximation: the loop-side segments cannot really
-   run any more; the safety theorems above hold for all op sequences anyway). *)
-Theorem C14_from_thread_run_served : forall ops s w,
-  no_land_after_loop_end (ended s) (ops ++ [ThreadRunAsync w]) = true ->
-  ended (final step s ops) = false.
+(* ... and under the boolean restriction no_land_after_loop_end (no from_thread call-back is issued after LoopEnd) EVERY
+   call-back of the run, at whatever position, is served: it is issued while `ended = false`, its result is not RHang,
+   and for an executing function it is the answer of C14_from_thread_run_spec.  The ops after LoopEnd other than
+   ThreadRunAsync are not restricted by the model (an over-approximation: the loop-side segments cannot really run any
+   more; the safety theorems above hold for all op sequences anyway). *)
+Theorem C14_from_thread_run_served : forall pre w post s,
+  no_land_after_loop_end (ended s) (pre ++ ThreadRunAsync w :: post) = true ->
+  let s' := final step s pre in
+  ended s' = false /\
+  snd (step s' (ThreadRunAsync w)) <> RHang /\
+  (forall c, wk s' w = WExec c ->
+     step s' (ThreadRunAsync w) = (s', RRT (walk (handed_visible (calls s' c))))).
 Proof. exact rs_from_thread_run_served. Qed.
 Print Assumptions C14_from_thread_run_served.
 
